@@ -56,7 +56,7 @@ def call(u, op, t, k=0, t1=None, step=1):
             rec["out"] = proj(iv.round(t))
         elif op == "offset":
             rec["out"] = proj(iv.offset(t, k))
-        elif op == "range":
+        elif op in ("range", "wrange"):
             rec["outs"] = [proj(x) for x in iv.range(t, t1, step)]
     except Exception as ex:
         rec["err"] = type(ex).__name__
@@ -80,6 +80,10 @@ def records_for(t, units, rng, ops):
                 span = RANGE_SPAN[u] * rng.choice([0.02, 0.3, 1])
                 step = 1 if u == "week" else rng.choice([1, 1, 2, 3, 5, 6, 12])
                 out.append(call(u, op, t, t1=t + span, step=step))
+                if u == "week":
+                    # stepped week ranges (spacing clause only); started shortly before a year's first Sunday half of the time
+                    t0 = t if rng.random() < 0.5 else dt.datetime(t.year, 1, 1) - dt.timedelta(days=rng.randint(0, 20))
+                    out.append(call(u, "wrange", t0, t1=t0 + dt.timedelta(days=rng.choice([40, 120, 400])), step=rng.choice([2, 2, 3, 4])))
     return out
 
 
